@@ -1,12 +1,10 @@
-"""C04 (first version: Kani kernels only)."""
+"""C04: a fixed-layout key emits exactly the text the layout file assigns to it."""
+import obl_fixed
 import obl_kani
 
 
 def run(c):
-    names = ['k_get_modifiers']
-    if c.tier == "thorough":
-        names = names + THOROUGH
-    obl_kani.run(c, names)
-
-
-THOROUGH = []
+    obl_kani.run(c, ["k_get_modifiers"])
+    obl_fixed.obl_layout_key(c, budget_s=1200)
+    c.outside("JSON parsing of the layout file (Layout::parse) and the content of the bundled Probhat.json; "
+              "multi-code-point entries that start with a vowel sign (the helper chain keeps only the sign: recorded, not judged)")
